@@ -147,7 +147,9 @@ def AR_est_LD(x, order, rxx=None):
         rxx_m = rxx[:order + 1]
     else:
         rxx_m = utils.autocorr(x)[:order + 1]
-    w = np.zeros((order + 1, ), rxx_m.dtype)
+    # the coefficients are ratios of autocorrelation lags: never hold them in an
+    # integer array (an integer-typed rxx would truncate them to zero)
+    w = np.zeros((order + 1, ), np.result_type(rxx_m.dtype, np.float64))
     # initialize the recursion with the R[0]w[1]=r[1] solution (p=1)
     b = rxx_m[0].real
     w_k = rxx_m[1] / b
